@@ -538,4 +538,61 @@ theorem derived_after_init {Out : Type} (f : Val → Out) (st : DState Out) :
     (stepD .always f st .init).source = st.source := by
   cases h : st.derived <;> simp [stepD, h]
 
+/-! ### values a getter keeps -/
+
+section
+variable {Out : Type} (used keyed : List String) (f : (String → Val) → Out)
+
+/-- the kept result is `f` of *every* argument assignment that matches its key -/
+def GInv (st : GState Out) : Prop :=
+  ∀ k out, st.kept = some (k, out) → ∀ e : String → Val, keyed.map e = k → out = f e
+
+theorem ginv_step (hsub : ∀ a ∈ used, a ∈ keyed)
+    (hf : ∀ e e' : String → Val, (∀ a ∈ used, e a = e' a) → f e = f e')
+    (st : GState Out) (op : GOp) (hI : GInv keyed f st) : GInv keyed f (stepG keyed f st op).1 := by
+  have hnew : ∀ args : List (String × Val),
+      GInv keyed f { kept := some (keyed.map (gArg args), f (gArg args)) } := by
+    intro args k out h e he
+    simp only [Option.some.injEq, Prod.mk.injEq] at h
+    obtain ⟨hk, hout⟩ := h
+    subst hk hout
+    apply hf
+    intro a ha
+    exact (List.map_inj_left.mp he a (hsub a ha)).symm
+  cases op with
+  | reset => intro k out h; simp [stepG] at h
+  | call args =>
+    simp only [stepG]
+    cases hk : st.kept with
+    | none => exact hnew args
+    | some p =>
+      obtain ⟨k', out⟩ := p
+      simp only
+      split
+      · exact hI
+      · exact hnew args
+
+theorem ginv_run (hsub : ∀ a ∈ used, a ∈ keyed)
+    (hf : ∀ e e' : String → Val, (∀ a ∈ used, e a = e' a) → f e = f e') :
+    ∀ (hist : List GOp) (st : GState Out), GInv keyed f st → GInv keyed f (runG keyed f st hist) := by
+  intro hist
+  induction hist with
+  | nil => intro st h; exact h
+  | cons op ops ih => intro st h; exact ih _ (ginv_step used keyed f hsub hf st op h)
+
+theorem gcall_sound (st : GState Out) (hI : GInv keyed f st) (args : List (String × Val)) :
+    (stepG keyed f st (.call args)).2 = some (f (gArg args)) := by
+  simp only [stepG]
+  cases hk : st.kept with
+  | none => rfl
+  | some p =>
+    obtain ⟨k', out⟩ := p
+    simp only
+    split
+    · rename_i heq
+      rw [hI k' out hk (gArg args) heq.symm]
+    · rfl
+
+end
+
 end OQuPyVerif.Aliasing
